@@ -3314,6 +3314,7 @@ def _to_dot(
         nodes = bdd._succ
         roots = list()
     else:
+        roots = list(roots)
         nodes = bdd.descendants(roots)
     # show only levels in aggregate support
     levels = {
